@@ -139,3 +139,24 @@ for _t, _pos in (('nterm', '0'), ('cterm', 'len(sequence._sequence) - 1')):
                  ('skip-mode-keeps-an-existing-terminal-modification', "implies(mode == 'skip' and sequence._%s_mods is not None, same(result._%s_mods, sequence._%s_mods))" % (_t, _t, _t)),
                  ('a-matched-terminus-is-modified', 'implies(' + _HIT + ', result._%s_mods is not None)' % _t)],
         invariants=_inv)
+
+# ---------------------------------------------------------------- apply_variable_mods with residue rules only (no terminal rules), annotation return type:
+# the forms of the builder on a COPY of the peptide (so never the caller's own object) for the normalised rules
+for _f in ('fix_list_of_list_of_mods', 'remove_empty_list_of_list_of_mods'):
+    C['peptacular.proforma.input_convert:' + _f] = dict(
+        params=dict(mods='List[ModList]'), returns='List[ModList]', pure=True, trusted=True,
+        bounded_by='input normalisation of the offered modification groups: bounded/C13.py', ensures=[])
+_NORM = '{k: v for k, v in {k: remove_empty_list_of_list_of_mods(fix_list_of_list_of_mods(v)) for k, v in some(internal_mods).items()}.items() if v}'
+C[MB + 'apply_variable_mods@residues'] = dict(
+    params=dict(sequence='Annotation', internal_mods='Optional[Dict[str,List[ModList]]]', max_mods='int', nterm_mods='None', cterm_mods='None',
+                mode='str', return_type='str'),
+    specialize=dict(return_type='annotation'), returns='Bag[Annotation]', pure=True,
+    locals=dict(internal_mods='Dict[str,List[ModList]]', nterm_mods='Dict[str,List[ModList]]', cterm_mods='Dict[str,List[ModList]]',
+                n_term_annotations='Bag[Annotation]', var_annotations='Bag[Annotation]'),
+    requires=[('non-negative-budget', 'max_mods >= 0')],
+    raises={'ValueError': "mode != 'skip' and mode != 'append' and mode != 'overwrite'"}, raises_inexact=True,
+    ensures=[('every-form-keeps-the-residues-and-every-other-annotation-and-respects-the-budget',
+              'forall(lambda t=Annotation: implies(count(result, t) > 0, t.count_modified_residues() <= max_mods + sequence.count_modified_residues() and '
+              "rest_same(t, sequence) and implies(mode == 'skip', forall(lambda j: implies(im_has(sequence, j), pos_same(t, sequence, j))))))")],
+    invariants={o: [('unreached', 'True')] for o in range(5)},
+)
